@@ -184,7 +184,11 @@ example : Rect2d ([[[0, 0, 0, 1], [0, 1, 0, 2], [0, 2, 0, 3]], [[1, 0, 0, 1], [1
 /-- JSON: `import_json (export_json x)` is `x` in rational form with normalised knot vectors, the sampling
     density `delta` (or the `delta=` keyword when it lies in (0,1)), the sense flags and the trims (spline,
     freeform, container; each in rational form), for curves, surfaces, volumes and containers of any length,
-    in container order. -/
+    in container order.  TOTALITY: `importShapes` has no guard of its own and `Shapes.Ok` only asks for non-zero
+    weights, so this identity also covers records the real importer would refuse (degree 0, a knot vector of equal
+    knots – "imported" with the model's `x / 0 = 0` – too few knots); it is meant for, and the harness only feeds it,
+    records exported from valid library objects.  The `*_same_points` versions below carry well-formedness (`EvalOk`:
+    `len(U) = n + p + 1`, sorted knots with a non-degenerate range, net size) for the evaluated statement. -/
 theorem json_export_import (ov : Option K) (x : Shapes K) (h : Shapes.Ok x) :
     importShapes ov (exportShapes x) = x.asRational ov :=
   dict_shapes ov x h
@@ -315,49 +319,66 @@ theorem vmesh_export_import_same_point (x : Vol K) (d : ℕ) (h : x.EvalOk d)
 
 /-- **containers of surfaces, one smesh file per element**: the surfaces read back correspond to the exported ones
     in container order, and each evaluates to the same points (`Srf.SamePoints s' s`: for every `(u, v)` of the
-    domain of `s`, `s'` at the normalised parameters = `s` at `(u, v)`). -/
-theorem smesh_container_same_points (l : List (Srf K)) (d : ℕ)
-    (h : ∀ s ∈ l, s.EvalOk d ∧ (s.rational = true → WeightsOk s.net) ∧ dimOf s.rational s.net = 3) :
+    domain of `s`, `s'` at the normalised parameters = `s` at `(u, v)`).  The length `d` of the stored points is
+    per element: a container may mix BSpline and NURBS surfaces (`multi.AbstractContainer.add` only compares the
+    spatial dimension), whose stored points have 3 resp. 4 coordinates. -/
+theorem smesh_container_same_points (l : List (Srf K))
+    (h : ∀ s ∈ l, (∃ d, s.EvalOk d) ∧ (s.rational = true → WeightsOk s.net) ∧ dimOf s.rational s.net = 3) :
     ∃ l', smeshReadAll (smeshWriteAll l) = some l' ∧ List.Forall₂ Srf.SamePoints l' l :=
   ⟨l.map Srf.asRational,
    readAll_of l smeshWrite smeshRead Srf.asRational
-     (fun s hs => smesh_roundtrip s (h s hs).1.len (h s hs).2.1 (h s hs).2.2 (h s hs).1.kvU (h s hs).1.kvV),
-   forall₂_map_of l _ _ (fun s hs u v hu hv => Srf.asRational_point s d (h s hs).1 u v hu hv)⟩
+     (fun s hs => by
+       obtain ⟨d, hd⟩ := (h s hs).1
+       exact smesh_roundtrip s hd.len (h s hs).2.1 (h s hs).2.2 hd.kvU hd.kvV),
+   forall₂_map_of l _ _ (fun s hs u v hu hv => by
+     obtain ⟨d, hd⟩ := (h s hs).1
+     exact Srf.asRational_point s d hd u v hu hv)⟩
 
-/-- **containers of volumes, one vmesh file per element** -/
-theorem vmesh_container_same_points (l : List (Vol K)) (d : ℕ)
-    (h : ∀ x ∈ l, x.EvalOk d ∧ (x.rational = true → WeightsOk x.net) ∧ dimOf x.rational x.net = 3) :
+/-- **containers of volumes, one vmesh file per element** (point length per element, as above) -/
+theorem vmesh_container_same_points (l : List (Vol K))
+    (h : ∀ x ∈ l, (∃ d, x.EvalOk d) ∧ (x.rational = true → WeightsOk x.net) ∧ dimOf x.rational x.net = 3) :
     ∃ l', vmeshReadAll (vmeshWriteAll l) = some l' ∧ List.Forall₂ Vol.SamePoints l' l :=
   ⟨l.map Vol.asRational,
    readAll_of l vmeshWrite vmeshRead Vol.asRational
-     (fun x hx => vmesh_roundtrip x (h x hx).1.len (h x hx).2.1 (h x hx).2.2 (h x hx).1.kvU (h x hx).1.kvV (h x hx).1.kvW),
-   forall₂_map_of l _ _ (fun x hx u v w hu hv hw => Vol.asRational_point x d (h x hx).1 u v w hu hv hw)⟩
+     (fun x hx => by
+       obtain ⟨d, hd⟩ := (h x hx).1
+       exact vmesh_roundtrip x hd.len (h x hx).2.1 (h x hx).2.2 hd.kvU hd.kvV hd.kvW),
+   forall₂_map_of l _ _ (fun x hx u v w hu hv hw => by
+     obtain ⟨d, hd⟩ := (h x hx).1
+     exact Vol.asRational_point x d hd u v w hu hv hw)⟩
 
 /-- **JSON / YAML / cfg (dict form), curves and containers of curves**: the imported shapes correspond to the exported
-    ones in container order and each evaluates to the same points. -/
-theorem json_export_import_same_points_curves (ov : Option K) (l : List (CrvX K)) (d : ℕ)
-    (h : Shapes.Ok (.curves l)) (he : ∀ c ∈ l, c.g.EvalOk d) :
+    ones in container order and each evaluates to the same points (point length `d` per element: a container may mix
+    rational and non-rational shapes). -/
+theorem json_export_import_same_points_curves (ov : Option K) (l : List (CrvX K))
+    (h : Shapes.Ok (.curves l)) (he : ∀ c ∈ l, ∃ d, c.g.EvalOk d) :
     ∃ l', importShapes ov (exportShapes (.curves l)) = .curves l' ∧
       List.Forall₂ (fun c' c => Crv.SamePoints c'.g c.g) l' l :=
   ⟨l.map (CrvX.asRational ov), dict_shapes ov (.curves l) h,
-   forall₂_map_of l _ _ (fun c hc u hu => Crv.asRational_point c.g d (he c hc) u hu)⟩
+   forall₂_map_of l _ _ (fun c hc u hu => by
+     obtain ⟨d, hd⟩ := he c hc
+     exact Crv.asRational_point c.g d hd u hu)⟩
 
 /-- **dict form, surfaces** (the trims travel with the surface, `json_export_import`; the statement here is about
     the surface points) -/
-theorem json_export_import_same_points_surfaces (ov : Option K) (l : List (SrfX K)) (d : ℕ)
-    (h : Shapes.Ok (.surfaces l)) (he : ∀ s ∈ l, s.g.EvalOk d) :
+theorem json_export_import_same_points_surfaces (ov : Option K) (l : List (SrfX K))
+    (h : Shapes.Ok (.surfaces l)) (he : ∀ s ∈ l, ∃ d, s.g.EvalOk d) :
     ∃ l', importShapes ov (exportShapes (.surfaces l)) = .surfaces l' ∧
       List.Forall₂ (fun s' s => Srf.SamePoints s'.g s.g) l' l :=
   ⟨l.map (SrfX.asRational ov), dict_shapes ov (.surfaces l) h,
-   forall₂_map_of l _ _ (fun s hs u v hu hv => Srf.asRational_point s.g d (he s hs) u v hu hv)⟩
+   forall₂_map_of l _ _ (fun s hs u v hu hv => by
+     obtain ⟨d, hd⟩ := he s hs
+     exact Srf.asRational_point s.g d hd u v hu hv)⟩
 
 /-- **dict form, volumes** -/
-theorem json_export_import_same_points_volumes (ov : Option K) (l : List (VolX K)) (d : ℕ)
-    (h : Shapes.Ok (.volumes l)) (he : ∀ x ∈ l, x.g.EvalOk d) :
+theorem json_export_import_same_points_volumes (ov : Option K) (l : List (VolX K))
+    (h : Shapes.Ok (.volumes l)) (he : ∀ x ∈ l, ∃ d, x.g.EvalOk d) :
     ∃ l', importShapes ov (exportShapes (.volumes l)) = .volumes l' ∧
       List.Forall₂ (fun x' x => Vol.SamePoints x'.g x.g) l' l :=
   ⟨l.map (VolX.asRational ov), dict_shapes ov (.volumes l) h,
-   forall₂_map_of l _ _ (fun x hx u v w hu hv hw => Vol.asRational_point x.g d (he x hx) u v w hu hv hw)⟩
+   forall₂_map_of l _ _ (fun x hx u v w hu hv hw => by
+     obtain ⟨d, hd⟩ := he x hx
+     exact Vol.asRational_point x.g d hd u v w hu hv hw)⟩
 
 /-- a spline trim curve of a surface comes back (without the `delta` override) as a curve with the same points -/
 theorem json_trim_curve_same_points (c : CrvX K) (d : ℕ) (h : Trim.Ok (.spline c)) (he : c.g.EvalOk d) :
@@ -410,5 +431,40 @@ example : (smeshRead (smeshWrite srfPlain)).map (fun s' => s'.point (normParam [
     = some (srfPlain.point 5 3) :=
   smesh_export_import_same_point srfPlain 3 srfPlain_evalOk (fun h => absurd h (by decide)) rfl 5 3
     ⟨by decide +kernel, by decide +kernel⟩ ⟨by decide +kernel, by decide +kernel⟩
+
+/-- non-vacuity witness: the weights of the rational witness are non-zero (closed statement) -/
+theorem srfWitness_weights : srfWitness.rational = true → WeightsOk srfWitness.net := by
+  intro _ p hp
+  simp only [srfWitness, List.mem_cons, List.not_mem_nil, or_false] at hp
+  rcases hp with rfl | rfl | rfl | rfl | rfl | rfl <;> exact ⟨by simp, by norm_num [List.getLastD]⟩
+
+/-- a MIXED container (the rational witness and the non-rational surface: stored points of length 4 and 3): the
+    smesh container theorem and the dict-form theorem apply – with one common `d` they could not -/
+example : ∃ l', smeshReadAll (smeshWriteAll [srfWitness, srfPlain]) = some l' ∧
+    List.Forall₂ Srf.SamePoints l' [srfWitness, srfPlain] :=
+  smesh_container_same_points [srfWitness, srfPlain] (by
+    intro s hs
+    simp only [List.mem_cons, List.not_mem_nil, or_false] at hs
+    rcases hs with rfl | rfl
+    · exact ⟨⟨4, srfWitness_evalOk⟩, srfWitness_weights, rfl⟩
+    · exact ⟨⟨3, srfPlain_evalOk⟩, fun h => absurd h (by decide), rfl⟩)
+
+def mixedSrfs : List (SrfX ℚ) :=
+  [{ g := srfWitness, delta := (1/10, 1/20), reversed := some false, trims := [] },
+   { g := srfPlain, delta := (1/4, 1/4), reversed := none, trims := [] }]
+
+example : ∃ l', importShapes (some (1/3 : ℚ)) (exportShapes (.surfaces mixedSrfs)) = .surfaces l' ∧
+    List.Forall₂ (fun s' s => Srf.SamePoints s'.g s.g) l' mixedSrfs :=
+  json_export_import_same_points_surfaces (some (1/3)) mixedSrfs (by
+    intro s hs
+    simp only [mixedSrfs, List.mem_cons, List.not_mem_nil, or_false] at hs
+    rcases hs with rfl | rfl
+    · exact ⟨srfWitness_weights, fun t ht => by simp at ht⟩
+    · exact ⟨fun h => absurd h (by decide), fun t ht => by simp at ht⟩) (by
+    intro s hs
+    simp only [mixedSrfs, List.mem_cons, List.not_mem_nil, or_false] at hs
+    rcases hs with rfl | rfl
+    · exact ⟨4, srfWitness_evalOk⟩
+    · exact ⟨3, srfPlain_evalOk⟩)
 
 end C14
